@@ -708,6 +708,7 @@ pub fn boundaries(ctx: &Ctx) -> Report {
         let rt = runtime(rng.next());
         let span = 6usize;
         let (allocated, wire) = rt.block_on(async move {
+            let pi = pi;
             let c = connect();
             let mut ldap = c.ldap;
             let mut server = c.server;
@@ -722,6 +723,9 @@ pub fn boundaries(ctx: &Ctx) -> Report {
                                 _ => false,
                             };
                             seen.push((m.id, m.op.kind().to_string(), strict));
+                            if matches!(&m.op, Req::Del(dn) if dn == b"op=hold") {
+                                continue;
+                            }
                             if let Some(r) = reply_for(&m.op, Res::ok("ok")) {
                                 server.send(&ber::encode_min(&resp_node(m.id, &r, None)));
                             }
@@ -742,6 +746,16 @@ pub fn boundaries(ctx: &Ctx) -> Report {
                 let o = world::watchdog(invoke(&mut ldap, &call)).await.unwrap_or(Outcome::Hung);
                 allocated.push((ldap.last_id(), o.class()));
             }
+            // the session ends with an Unbind, a request like any other as far as its message ID goes: sent from a
+            // handle that never ran an operation of its own, or from one whose last operation is still outstanding
+            // (its caller gave up on it; the server never answers "hold")
+            let mut lu = ldap.clone();
+            if pi % 2 == 1 {
+                let _ = tokio::time::timeout(std::time::Duration::from_millis(20), invoke(&mut lu, &Call::Delete { dn: "op=hold".into() })).await;
+                allocated.push((lu.last_id(), "Ok".to_string()));
+            }
+            let _ = world::watchdog(lu.unbind()).await;
+            drop(lu);
             drop(ldap);
             let seen = srv.await.unwrap_or_default();
             let _ = c.driver.await;
@@ -765,6 +779,19 @@ pub fn boundaries(ctx: &Ctx) -> Report {
                 None => rep.violation("C05:request-missing-near-an-octet-boundary-of-the-id", format!("allocated ID {} never reached the server (outcome {})", id, outcome), replay.clone()),
             }
             rep.count("ids_checked_across_octet_boundaries", 1);
+        }
+        match wire.get(allocated.len()) {
+            Some((uid, kind, _)) if kind == "unbind" => {
+                let outstanding: Vec<i64> = if pi % 2 == 1 { allocated.last().map(|a| vec![a.0 as i64]).unwrap_or_default() } else { vec![] };
+                if *uid < 1 || *uid > MAX as i64 {
+                    rep.violation("C05:id-out-of-range-on-the-wire:unbind", format!("the UnbindRequest left with message ID {} (handle {})", uid, if pi % 2 == 1 { "whose last operation is outstanding" } else { "that never ran an operation" }), replay.clone());
+                } else if outstanding.contains(uid) {
+                    rep.violation("C05:id-of-an-outstanding-operation-reused:unbind", format!("the UnbindRequest left with message ID {}, the ID of the handle's last operation, which is still outstanding", uid), replay.clone());
+                } else {
+                    rep.count("unbind_ids_checked", 1);
+                }
+            }
+            other => rep.violation("C05:request-missing-near-an-octet-boundary-of-the-id:unbind", format!("expected the UnbindRequest as request {}, the server saw {:?}", allocated.len() + 1, other), replay.clone()),
         }
         rep.case(Some(p as u64));
         if pi < 2 {
